@@ -1,4 +1,4 @@
-import HmsProofs.Lemmas.SimHMatch
+import HmsProofs.Lemmas.SimHList
 /-!
 # Expressions of the general fragment: the induction steps
 -/
@@ -362,6 +362,25 @@ theorem pe_step (G : GCtx) (hG : G.OK') (n : Nat) (hPE : ∀ m, m ≤ n → PE G
             obtain ⟨hfr2, mem2, hrc, hml2⟩ := h2
             refine ⟨by rw [hfr2, hfr1], mem2, (hrun1.trans (Runs.call hA icall hrc)).cast (by omega),
               hml1.trans hml2⟩
+    case list sp ty xs =>
+      simp only [Frag.varsGE] at hres
+      simp only [Frag.namesGE, Frag.varsGE, Frag.callsGE, List.append_nil] at hT
+      simp only [cgE] at hpl ⊢
+      obtain ⟨hplP, hplE⟩ := hpl.append
+      obtain ⟨ipush, _⟩ := hplP.instr (i := .cloningPush .emptyList) rfl
+      have hn1 : nI [((Instr.cloningPush .emptyList : SInstr), sp)] = 1 := rfl
+      simp only [nI_append, hn1] at hplE ⊢
+      obtain ⟨hlm, vals, hev, hrun⟩ := listElems_run G A hA st mem scopes vm sp hrel xs (ip + 1) stk lm hok hres hT hplE
+      rw [evalExpr_list]
+      rcases hev st rfl n with h | h
+      · rw [h]; trivial
+      · rw [h]
+        simp only []
+        have hpush := Runs.of_exec1 (fr := G.fr) (mem := mem) (fun it_ k => mkS_cloningPush_emptyList G.code G.lim
+          (withIt G.s it_) A.fn ip A.rest A.mp k stk mem.cells st.world A.c hA.code sp ipush)
+        have hels := hrun st.heap st.out []
+        rw [List.nil_append] at hels
+        exact ⟨rfl, mem, (hpush.trans hels).cast (by omega), MemLe.refl _ _ _⟩
     case matchE sp ty c arms dflt =>
       cases dflt with
       | none => simp [Frag.okGE] at hok
